@@ -685,6 +685,20 @@ func ruleDecode(c *Ctx) *RuleResult {
 		fn := c.tokenProducerFn("tQuotedIdentifier", "consumeQuotedIdentifier")
 		r.Instances++
 		calls := find(fn, nil, nil)
+		if len(calls) == 0 {
+			// the decoding may sit in a plain helper the scanner calls with the text
+			for _, b := range fn.Blocks {
+				for _, in := range b.Instrs {
+					if call, ok := in.(*ssa.Call); ok {
+						if g := staticCallee(call); g != nil && g.Pkg == c.SLib && g.Blocks != nil && g.Signature.Recv() == nil {
+							if cs := find(g, nil, nil); len(cs) > 0 {
+								calls = append(calls, cs...)
+							}
+						}
+					}
+				}
+			}
+		}
 		pos := c.pos(fn.Pos())
 		if len(calls) == 0 {
 			// the decoding is not done in this function (handed to a helper through a
